@@ -61,4 +61,6 @@ M3 open: `if filepath.IsAbs(…)` -> `if false && filepath.IsAbs(…)`  exit 1 (
 M4 dir.ReadDir: len(ret) == n -> len(ret) == n-1                 exit 1: 21 disagreements, no new oracle class (paging is already a known
                                                                  finding): `correspondence-broken … no-failing-input-found`
 H1 harmless: rename `rest` -> `remainder` in fs.go               exit 0 (0 disagreements, facts regenerated identically)
+After the skeleton-digest facts were added (extractor-only re-check on a scratch copy): H1 still regenerates identical
+facts; `filepath.Join(filepath.Dir(name), …)` -> `filepath.Join(name, …)` in open flips skelOpenRec (C29_skeletons_ok fails).
 """
